@@ -181,6 +181,11 @@ pub fn family(name: &str) -> Family {
             binary: vec!["then", "or", "choicev", "then"],
             alphabet: vec!["a", "b", "(", ")"],
         },
+        // C14: strings over digits, letters, underscore, every kind of whitespace / line terminator, multi-byte characters
+        "txt" => Family { leaves: vec![], unary: vec![], binary: vec![],
+            alphabet: vec!["0", "1", "7", "9", "a", "f", "z", "_", "S", "T", "N", "R", "V", "F", "X", "L", "P", "E", "+", "0", "a", "S", "N", "R"] },
+        "txtb" => Family { leaves: vec![], unary: vec![], binary: vec![],
+            alphabet: vec!["0", "1", "7", "9", "a", "f", "z", "_", "S", "T", "N", "R", "V", "F", "+", "0", "a", "S"] },
         "pratt" => Family { leaves: vec![], unary: vec![], binary: vec![], alphabet: vec!["a", "b", "+", "*", "-", "!", "^", "~"] },
         _ => panic!("unknown family {name}"),
     }
@@ -347,10 +352,54 @@ pub fn gen_pratt(r: &mut Rng) -> J {
     }
 }
 
+/// C14: a text parser node with the grammar src/text.rs builds it from (mirrors spec/MC.tla TInt, TAIdent, ...)
+pub fn text_node(name: &str, arg: &str) -> J {
+    let tm = |c: &str| json!(["trymap", ["any"], c]);
+    let run0 = |c: &str| json!(["run", ["rep", tm(c), 0, -1]]);
+    let ident = |st: &str, co: &str| json!(["toslice", ["then", tm(st), run0(co)]]);
+    let kw: Vec<String> = arg.chars().map(crate::val::char_to_tok).collect();
+    match name {
+        "ws" => json!(["text", "ws", "", ["toslice", run0("ws")]]),
+        "iws" => json!(["text", "iws", "", ["toslice", run0("iws")]]),
+        "nl" => json!(["text", "nl", "", ["toslice", ["newline"]]]),
+        "digits" => json!(["text", "digits", arg, ["toslice", ["run", ["rep", tm(&format!("dig{arg}")), 1, -1]]]]),
+        "int" => json!(["text", "int", arg, ["toslice", ["or", ["ignored", ["then", tm(&format!("nz{arg}")), run0(&format!("dig{arg}"))]], ["ignored", ["just", ["0"]]]]]]),
+        "aident" => json!(["text", "aident", "", ident("aidstart", "aidcont")]),
+        "uident" => json!(["text", "uident", "", ident("uidstart", "uidcont")]),
+        "akw" => json!(["text", "akw", kw, ["toslice", ["sleq", ident("aidstart", "aidcont"), kw]]]),
+        "ukw" => json!(["text", "ukw", kw, ["toslice", ["sleq", ident("uidstart", "uidcont"), kw]]]),
+        n => panic!("unknown text parser {n}"),
+    }
+}
+
+pub fn gen_text(r: &mut Rng, bytes: bool) -> J {
+    let radix = *r.pick(&["2", "8", "10", "16", "36"]);
+    let leaf = |r: &mut Rng| match r.below(if bytes { 8 } else { 10 }) {
+        0 => text_node("ws", ""),
+        1 => text_node("iws", ""),
+        2 => text_node("digits", radix),
+        3 => text_node("int", radix),
+        4 => text_node("aident", ""),
+        5 => text_node("uident", ""),
+        6 => text_node("akw", *r.pick(&["a", "a1", "_", "fa"])),
+        7 => text_node("int", "10"),
+        8 => text_node("ukw", *r.pick(&["\u{e9}a", "_", "z9"])),
+        _ => text_node("nl", ""),
+    };
+    let rest = json!(["collect", ["rep", ["any"], 0, -1], "vec"]);
+    match r.below(6) {
+        0 => leaf(r),
+        1 | 2 => json!(["then", leaf(r), rest]),
+        3 => json!(["then", ["tpadded", leaf(r)], rest]),
+        4 => json!(["then", leaf(r), ["then", leaf(r), rest]]),
+        _ => json!(["collect", ["rep", ["or", text_node("int", radix), ["or", text_node("uident", ""), ["or", text_node("digits", "36"), ["just", ["+"]]]]], 0, 4], "vec"]),
+    }
+}
+
 /// A well-formed random grammar of the family with at most `budget` nodes (approximately).
 pub fn gen_wf(r: &mut Rng, f: &Family, budget: usize) -> J {
     if f.leaves.is_empty() {
-        return gen_pratt(r);
+        return if f.alphabet.contains(&"S") { gen_text(r, !f.alphabet.contains(&"E")) } else { gen_pratt(r) };
     }
     loop {
         let g = gen(r, f, budget);
